@@ -19,7 +19,7 @@ import json, os, collections, time
 import vlib
 from vlib import Check, Broken, log
 
-ALL_OPS = ["krig_u", "krig_m", "krig_mb", "neigh_u", "neigh_m", "neigh_mb", "xvalid_u", "xvalid_m", "vario", "stat",
+ALL_OPS = ["krig_u", "krig_m", "krig_mb", "neigh_u", "neigh_m", "neigh_mb", "xvalid_u", "xvalid_m", "vario", "vario_cov", "stat",
            "stat_iso", "cov", "cov_sym", "drift", "simtub", "simtub_pt", "migrate", "migrate_ball", "migrate_grid",
            "migrate_fill", "reduce"]
 F_OPS = ["krig_u", "krig_m", "krig_mb", "neigh_u", "neigh_m", "xvalid_u", "xvalid_m", "drift", "simtub"]
@@ -185,6 +185,8 @@ class Comparer:
     def reduce_form(self, case, o, M, R, keep):
         """None when O(masked) = Expand(O(reduced)), else a description."""
         op = o["op"]
+        if op == "vario_cov":
+            op = "vario"
         if op in ("neigh_u", "neigh_m", "neigh_mb", "reduce"):
             if R["st"] == "empty":
                 return None if not [x for x in M["i"] if x not in (-1, 0)] else "rows selected although nothing is usable"
@@ -276,7 +278,14 @@ class Comparer:
                             return "pair counts %r of variable %d, expected %r" % (sw, iv + 1, decl[iv])
                     blk += 1
             return None
-        if op in ("migrate", "migrate_ball", "migrate_grid", "migrate_fill"):
+        if op == "migrate_grid":
+            cols = columns(M)
+            if len(cols) != 1:
+                return "no output variable"
+            got = sorted(x for x in cols[0] if x is not None)
+            want = sorted(Z1[s - 1] for s in decl)
+            return None if got == want else "values written %r, expected %r" % (got, want)
+        if op in ("migrate", "migrate_ball", "migrate_fill"):
             cols = columns(M)
             if len(cols) != 1:
                 return "no output variable"
